@@ -315,6 +315,8 @@ def run(ctx):
     clause_ascii_compatible_ctor(r, mir)
     from .c03 import clause_strict_gates_guard
     clause_strict_gates_guard(r, mir)
+    from . import shared_mir as _sm
+    _sm.clause_rewrite_str_plumbing(r, mir)
 
     # ------------------------------------------------------------------ R01.9 (shared with C09 R09.4)
     # what the parser reports as consumed decides which bytes are re-fed with the next chunk
